@@ -327,7 +327,13 @@ func TestShardLookbackRapid(t *testing.T) {
 			nowSec += int64(rapid.IntRange(0, 20).Draw(rt, "dt"))
 			switch rapid.IntRange(0, 2).Draw(rt, "kind") {
 			case 0:
-				nw := inst{ID: fmt.Sprintf("j%d", e), Registered: nowSec}
+				// the joiner stamps its registration with its own clock, which may be ahead of the querying
+				// client's: the registration then lies after the instant of a later query
+				skew := int64(rapid.SampledFrom([]int{0, 0, 0, 1, 2, 30}).Draw(rt, "joinerClockAheadSec"))
+				if skew > 0 {
+					vx.Class("joins_stamped_by_a_clock_running_ahead", 1)
+				}
+				nw := inst{ID: fmt.Sprintf("j%d", e), Registered: nowSec + skew}
 				nw.Zone = cur[rapid.IntRange(0, len(cur)-1).Draw(rt, "joinZoneOf")].Zone
 				nw.Tokens = drawTokens(rt, rapid.IntRange(1, 3).Draw(rt, "joinTok"), used)
 				if len(nw.Tokens) == 0 {
